@@ -158,7 +158,68 @@ def root(n: size, m: size, inp: f32[n + 2, m], out: f32[n, m]):
     return GenProgram(HEADER + body, "root", [], [], {"template": "blur"})
 
 
-ALL = [t_temp2d, t_two_loops, t_reduce_const, t_sliding, t_two_temps, t_split_range, t_writes, t_matmul, t_conv1d, t_blur]
+def t_temp2d_call(rng):
+    a, b = _c(rng, [2, 3]), _c(rng, [2, 4])
+    body = f"""@proc
+def fill(dst: [f32][{b}], v: f32):
+    for q in seq(0, {b}):
+        dst[q] = v
+
+@proc
+def root(n: size, x: f32[n, {b}], y: f32[n, {b}], sc: f32):
+    for i in seq(0, n):
+        t: f32[{a}, {b}]
+        fill(t[0, 0:{b}], sc)
+        fill(t[{a - 1}, 0:{b}], sc)
+        for q in seq(0, {b}):
+            t[0, q] += x[i, q]
+        for q in seq(0, {b}):
+            y[i, q] = t[0, q] + t[{a - 1}, q]
+"""
+    return GenProgram(HEADER + body, "root", ["fill"], [], {"template": "temp2d_call"})
+
+
+def t_config_flow(rng):
+    """configuration written, read in a guard, overwritten; a callee that reads / writes it"""
+    v1, v2 = _c(rng, [3, 5, 7]), _c(rng, [0, 1, 2])
+    loopw = rng.random() < 0.5
+    body = f"""@config
+class Cfg:
+    n: index
+    a: f32
+    b: bool
+
+@proc
+def sub(x: f32[4]):
+    for i in seq(0, 4):
+        x[i] = x[i] + 1.0
+
+@proc
+def subw(x: f32[4]):
+    Cfg.n = {v1}
+    for i in seq(0, 4):
+        x[i] = x[i] + 1.0
+
+@proc
+def root(x: f32[4], y: f32[4], sc: f32):
+    Cfg.n = {v2}
+    {'for k in seq(0, 4):' if loopw else 'if Cfg.n == ' + str(v2) + ':'}
+        Cfg.n = {v1}
+    sub(x)
+    Cfg.n = {v1}
+    if Cfg.n == {v1}:
+        y[0] = 2.0
+    sub(y)
+    if Cfg.n == {v1}:
+        y[1] = sc
+    Cfg.n = 0
+    Cfg.a = sc
+    y[2] = Cfg.a * 2.0
+"""
+    return GenProgram(HEADER + body, "root", ["sub", "subw"], ["Cfg"], {"template": "config_flow"})
+
+
+ALL = [t_temp2d, t_temp2d_call, t_two_loops, t_reduce_const, t_sliding, t_two_temps, t_split_range, t_writes, t_matmul, t_conv1d, t_blur]
 
 
 def any_template(rng):
